@@ -20,7 +20,6 @@ from vf.core import R
 PROPERTY = "C04"
 LEVEL = "exploration"
 
-from odc.geo import geom as G  # noqa: E402
 from odc.geo._blocks import BlockAssembler  # noqa: E402
 from odc.geo.geobox import GeoBox, GeoboxTiles  # noqa: E402
 from odc.geo.roi import Tiles, VariableSizedTiles, clip_tiles, roi_tiles  # noqa: E402
